@@ -13,3 +13,9 @@ package rekor
 //@   ghostmodifies n_fo, fo_id, fo_origin, fo_v, fo_w
 //@   ensures[C12.feed] n_fo <= old(n_fo) + 1
 //@   ensures[C12.feed] n_fo == old(n_fo) + 1 ==> fo_id == l.ID && fo_origin == l.Origin && fo_v == l.Verifier && fo_w == w
+
+//@ func getJSON
+//@   returns (err)
+//@   requires c != nil && base != nil
+//@   modifies heap
+//@   ensures[C19.s] true
